@@ -54,9 +54,14 @@ Definition sp_set_snaps (s : spec) (x : list (N * (smap * bool))) (nx : N) : spe
 Definition sp_touch (s : spec) (a : N) : spec :=
   mkSpec (sp_cur s) (sp_fl s) (sp_pend s) (sp_hist s) (sp_min s) (sp_max s) (sp_snaps s) (sp_next s) (sp_prev s)
          (a :: sp_touched s) (sp_flushes s).
+(** a snapshot no later revert may be claimed for: a non-journaled write happened after it, or the
+    in-block state it refers to was dropped (the implementation keeps the revision id valid) *)
+Definition taint (l : list (N * (smap * bool))) : list (N * (smap * bool)) :=
+  map (fun x : N * (smap * bool) => (fst x, (fst (snd x), true))) l.
+
 (** drop the in-block writes (Clear): back to the state of the last flush; snapshots die *)
 Definition sp_clear (s : spec) : spec :=
-  mkSpec (sp_fl s) (sp_fl s) (sp_pend s) (sp_hist s) (sp_min s) (sp_max s) [] (sp_next s) (sp_prev s)
+  mkSpec (sp_fl s) (sp_fl s) (sp_pend s) (sp_hist s) (sp_min s) (sp_max s) (taint (sp_snaps s)) (sp_next s) (sp_prev s)
          [] (sp_flushes s).
 
 (** * expected observables *)
@@ -131,9 +136,6 @@ Definition spec_dump (m : smap) (accts : list N) (ks : list bytes) : list sx :=
 Definition hist_get (s : spec) (h : N) : option (smap * bytes) :=
   if h =? 0 then Some (sm0, zero32) else alookup N.eqb h (sp_hist s).
 
-Definition taint (l : list (N * (smap * bool))) : list (N * (smap * bool)) :=
-  map (fun x : N * (smap * bool) => (fst x, (fst (snd x), true))) l.
-
 Definition spec_step (e : env) (s : spec) (o : op) (obs : out) : spec * sexp :=
   let cur := sp_cur s in
   match o with
@@ -169,7 +171,8 @@ Definition spec_step (e : env) (s : spec) (o : op) (obs : out) : spec * sexp :=
   | Flush =>
       let root := match obs with OFlush r _ => r | _ => [] end in
       let fr := mkFR (sp_prev s) (change_set (sp_fl s) cur) (dedup_adj N.eqb (isort n_leb (sp_touched s))) root in
-      (mkSpec cur cur true (sp_hist s) (sp_min s) (sp_max s) [] (sp_next s) root [] (fr :: sp_flushes s), EAny)
+      (mkSpec cur cur true (sp_hist s) (sp_min s) (sp_max s) (taint (sp_snaps s)) (sp_next s) root []
+              (fr :: sp_flushes s), EAny)
   | Commit h =>
       if sp_pend s then
         let min1 := if sp_min s =? 0 then h else sp_min s in
@@ -184,7 +187,8 @@ Definition spec_step (e : env) (s : spec) (o : op) (obs : out) : spec * sexp :=
       else match hist_get s h with
            | Some (m, root) =>
                (mkSpec m m (sp_pend s) (filter (fun x : N * (smap * bytes) => fst x <=? h) (sp_hist s))
-                       (if h =? 0 then 0 else sp_min s) h [] (sp_next s) root [] (sp_flushes s), ERes R_ok)
+                       (if h =? 0 then 0 else sp_min s) h (taint (sp_snaps s)) (sp_next s) root [] (sp_flushes s),
+                ERes R_ok)
            | None => (s, EAny)
            end
   | Version => (s, ES (XN (sp_max s)))
@@ -210,10 +214,8 @@ Definition wf_op_b (s : spec) (o : op) : bool :=
   (if sp_pend s then match o with Commit h => h =? sp_max s + 1 | _ => read_only o end else true) &&
   match o with
   | Revert id => match alookup N.eqb id (sp_snaps s) with Some (_, t) => negb t | None => true end
-  | SetCode _ c => negb (is_nil c)
-  | SetSt _ k _ | AddSt _ k _ => key_ok k
   (* LRU evictions happen while a flush fills the cache, never inside a transaction *)
-  | Evict _ _ _ => match sp_snaps s with [] => true | _ => false end
+  | Evict _ _ _ => forallb (fun x : N * (smap * bool) => snd (snd x)) (sp_snaps s)     (* no live snapshot *)
   | Rollback h =>
       (* inside the window the target must be a height recorded by a commit *)
       if (sp_max s <? h) || ((h <? sp_min s) && negb ((sp_min s =? 1) && (h =? 0))) || (sp_max s =? h) then true
@@ -224,7 +226,12 @@ Definition wf_op_b (s : spec) (o : op) : bool :=
 (** ops inside the refinement theorem; [GetCommittedState] is specified (it must return the value
     as of the block start) but the code does not implement that: it stays in the predicate that
     is evaluated on traces and outside the theorem *)
-Definition thm_op (o : op) : bool := match o with GetCommitted _ _ => false | _ => true end.
+Definition thm_op (o : op) : bool :=
+  match o with
+  | GetCommitted _ _ => false
+  | SetCode _ c => negb (is_nil c)      (* SetCode(nil) is specified (code := empty); the code keeps the old code *)
+  | _ => true
+  end.
 Definition wf_thm_b (s : spec) (o : op) : bool :=
   wf_op_b s o && thm_op o && (if sp_pend s then match o with Commit _ => true | _ => false end else true).
 
